@@ -557,6 +557,10 @@ class AshProtocol(asyncio.Protocol):
         self._tx_seq = 0
         self._rx_seq = 0
         self._change_ack_timeout(T_RX_ACK_INIT)
+
+        # Frames sent before the reset belong to the previous session: the NCP will
+        # never acknowledge them, do not retransmit them with their old frame numbers
+        self._cancel_pending_data_frames(NcpFailure(code=frame.reset_code))
         self._ezsp_protocol.reset_received(frame.reset_code)
 
     def ack_frame_received(self, frame: AckFrame) -> None:
